@@ -14,6 +14,7 @@
      RET <rax> <rdx> <xmm0> <xmm1> <nld> <ld0lo> <ld0hi> <ld1lo> <ld1hi>    hex; probe results
      IN <hexbytes>                  contents of the input buffer handed to f (p:in)
      OUTN <n>                       bytes of the output buffer to print
+     STKW <n>                       optional: stack words of the snapshot to print (default 96, max 320)
      STEP <k>                       optional: the following RET/IN/OUTN belong to step k (0..7) of a call
                                     SEQUENCE executed in ONE context: the module then exports f0..f<n-1>
                                     (each with its own prototype) and answers carry the id <id>.<k>
@@ -35,7 +36,7 @@
 #include "mir.h"
 #include "mir-gen.h"
 
-#define C05_NSTK 96
+#define C05_NSTK 320
 extern uint64_t c05_snap[16 + C05_NSTK];
 extern uint64_t c05_ret[12];
 extern uint64_t c05_calls;
@@ -57,10 +58,11 @@ static void MIR_NO_RETURN err_func (MIR_error_type_t t, const char *fmt, ...) {
 
 static char *mir_text;
 static size_t mir_len, mir_cap;
-static unsigned char in_buf[8192] __attribute__ ((aligned (16)));
+static unsigned char in_buf[16384] __attribute__ ((aligned (16)));
 static unsigned char out_buf[1024] __attribute__ ((aligned (16)));
 #define MAX_STEPS 8
-static unsigned char in_img[MAX_STEPS][8192];
+static unsigned char in_img[MAX_STEPS][16384];
+static int stk_words = 96; /* stack words of the snapshot to print (STKW) */
 static uint64_t step_ret[MAX_STEPS][12];
 static size_t step_outn[MAX_STEPS];
 static int nsteps, cur_step; /* nsteps == 0: single call, function `f` */
@@ -80,7 +82,7 @@ typedef void (*fun_t) (void *, void *);
    return address.  All steps of a sequence run in the same context (same ff-interface cache, same
    generator state). */
 static void __attribute__ ((noinline)) run_one (const char *id, const char *eng, void *callee, int gcc_p) {
-  volatile char pad[2048];
+  volatile char pad[8192];
   MIR_context_t ctx;
   MIR_module_t m;
   MIR_item_t f;
@@ -89,7 +91,7 @@ static void __attribute__ ((noinline)) run_one (const char *id, const char *eng,
   char sid[96], fname[16];
   int gen_p = eng[0] != 'i';
   pad[0] = 0;
-  pad[2047] = 0;
+  pad[8191] = 0;
   ctx = MIR_init ();
   MIR_set_error_func (ctx, err_func);
   if (setjmp (err_jmp)) {
@@ -148,7 +150,7 @@ static void __attribute__ ((noinline)) run_one (const char *id, const char *eng,
     }
     if (!gcc_p) {
       printf ("S %s %s %llu", sid, eng, (unsigned long long) c05_calls);
-      for (int i = 0; i < 16 + C05_NSTK; i++) printf (" %llx", (unsigned long long) c05_snap[i]);
+      for (int i = 0; i < 16 + stk_words; i++) printf (" %llx", (unsigned long long) c05_snap[i]);
       printf ("\n");
     } else {
       uint64_t *gm = dlsym (so_handle, "c05_gmask"), *gc = dlsym (so_handle, "c05_gcalls"),
@@ -166,7 +168,7 @@ static void __attribute__ ((noinline)) run_one (const char *id, const char *eng,
 }
 
 int main (void) {
-  static char line[1 << 16];
+  static char line[1 << 17];
   char id[64] = "?", engs[16][4], callee_name[128] = "";
   int nengs = 0;
   printf ("B %llx %llx\n", (unsigned long long) (uintptr_t) in_buf,
@@ -185,9 +187,13 @@ int main (void) {
       nengs = 0;
       nsteps = 0;
       cur_step = 0;
+      stk_words = 96;
       memset (in_img, 0, sizeof (in_img));
       memset (step_ret, 0, sizeof (step_ret));
       memset (step_outn, 0, sizeof (step_outn));
+    } else if (strncmp (line, "STKW ", 5) == 0) {
+      stk_words = atoi (line + 5);
+      if (stk_words < 0 || stk_words > C05_NSTK) stk_words = C05_NSTK;
     } else if (strncmp (line, "STEP ", 5) == 0) {
       cur_step = atoi (line + 5);
       if (cur_step < 0 || cur_step >= MAX_STEPS) cur_step = 0;
